@@ -127,7 +127,7 @@ def r09_2(ctx, fx):
         ctx.anchor("R09.2", "SubstreamKeepAlive::then", 0, 1, cfg=fx.cfg)
     # transports: lifetime permit of a substream = keep_alive.then(|| opening_permit.clone())
     n = 0
-    for key in sorted(fx.find(r"^transport::(tcp|websocket|quic)::connection::\w+::(handle_negotiated_substream|start)::\{closure#0\}$")):
+    for key in sorted(fx.find(r"^transport::(tcp|websocket|quic)::connection::\w+::(handle_negotiated_substream|start|run_event_loop)::\{closure#0\}$")):
         fn = fx.fn(key)
         news = fn.calls(r"transport::(tcp|websocket|quic)::substream::Substream::new$")
         for c in news:
